@@ -122,6 +122,11 @@ func httpErrorFromResponse(statusCode int, contentType string, src *bytes.Buffer
 		stat.Code = int32(httpStatusCodeToRPC(statusCode)) //nolint:gosec
 		stat.Message = http.StatusText(statusCode)
 	}
+	if stat.GetCode() == 0 {
+		// The body names no error code, but the HTTP status says the call
+		// failed: never report it as OK.
+		stat.Code = int32(httpStatusCodeToRPC(statusCode)) //nolint:gosec
+	}
 	connectErr := connect.NewWireError(
 		connect.Code(stat.GetCode()), //nolint:gosec // No information loss.
 		errors.New(stat.GetMessage()),
